@@ -84,11 +84,21 @@ var highWater [4]int
 // eval runs one text through LoadString + Run (exactly EvalString), dumping the new main
 // chunk and tracing the run.  Returns the result class.
 func (s *session) eval(src string, tags []string) lib.Result {
+	return s.evalWith(src, func(env *zygo.Zlisp) error { return env.LoadString(src) }, tags)
+}
+
+// evalWith: `load` may call any number of Load* entry points; then ONE Run() executes whatever is
+// pending.  The chunk that Run executes starts at the current pc of the main function (= its end
+// when nothing is pending); it is dumped, checked as one top-level chunk and traced.
+func (s *session) evalWith(src string, load func(env *zygo.Zlisp) error, tags []string) lib.Result {
 	env := s.env
 	s.c.curSrc = src
 	totalEvals++
 	mainFn := env.VerifMainFunc()
 	from := len(mainFn.VerifCode())
+	if pc, _ := env.VerifPc(); env.VerifCurFunc() == mainFn && pc >= 0 && pc < from {
+		from = pc
+	}
 	var res lib.Result
 	tr := &tracer{c: s.c, env: env}
 	func() {
@@ -103,7 +113,7 @@ func (s *session) eval(src string, tags []string) lib.Result {
 		if s.trace {
 			zygo.VerifTrace = tr.hook // macros run (traced) while loading
 		}
-		err := env.LoadString(src)
+		err := load(env)
 		if err != nil {
 			res = lib.Result{Class: lib.OutError, Err: err}
 			return
